@@ -249,6 +249,18 @@ def r20_2(ctx: Ctx, R: Resolver):
                                 lits = [x_ for i_ in src_.generators[0].ifs for x_ in __import__("gmsa.cfg", fromlist=["conjuncts"]).conjuncts(i_, True)]
                                 if _ctx("%r in %s" % (key, src_.elt.id)) in lits:
                                     ok, how = True, "the record is drawn from a list filtered by `%r in ...`" % key
+                # the record is an entry of a dict built by a comprehension that keeps only complete records:
+                # D = {k: v for k, v in src.items() if len(v) == <all keys> [or 'key' in v]} ... D[k]['key']
+                if not ok and isinstance(sub.value, ast.Subscript) and isinstance(sub.value.value, ast.Name):
+                    dn_ = sub.value.value.id
+                    defs_ = [s_ for s_ in ast.walk(f.node) if isinstance(s_, ast.Assign) and norm(s_.targets[0]) == dn_]
+                    if len(defs_) == 1 and isinstance(defs_[0].value, ast.DictComp) and len(defs_[0].value.generators) == 1:
+                        dc_ = defs_[0].value
+                        vname = norm(dc_.value)
+                        for i_ in dc_.generators[0].ifs:
+                            for t_, p_ in __import__("gmsa.cfg", fromlist=["conjuncts"]).conjuncts(i_, True):
+                                if p_ and t_ in (_ctx("len(%s) == %d" % (vname, len(allkeys)))[0], _ctx("%r in %s" % (key, vname))[0]):
+                                    ok, how = True, "the record is an entry of a dict that keeps complete records only (`%s`)" % norm(i_)
                 # try/except KeyError
                 for a in ancestors(sub, pmf):
                     if isinstance(a, ast.Try) and any(h.type is not None and "KeyError" in norm(h.type) for h in a.handlers) \
@@ -673,10 +685,12 @@ def r20_4(ctx: Ctx, R: Resolver):
                 is_none_branch = any((norm(t) == "%s is None" % p_out and pol) or (norm(t) == "%s is not None" % p_out and not pol)
                                      for t, pol in g)
                 if is_none_branch:
-                    v = d.value
-                    okd = isinstance(v, ast.Call) and norm(v.func) == "os.path.join" and len(v.args) == 2 \
-                        and norm(v.args[0]) == folder and isinstance(v.args[1], ast.JoinedStr) \
-                        and _fstring_shape(v.args[1]) == ["mapped_", "{" + base + "}"]
+                    from ..pat import expand_single_defs as _xsd204
+                    v = _xsd204(am.node, d.value, skip=(folder, base))
+                    okd = any(isinstance(v, ast.Call) and norm(v.func) == "os.path.join" and len(v.args) == 2
+                              and norm(v.args[0]) == norm(sp_.targets[0].elts[0]) and isinstance(v.args[1], ast.JoinedStr)
+                              and _fstring_shape(v.args[1]) == ["mapped_", "{" + norm(sp_.targets[0].elts[1]) + "}"]
+                              for sp_ in split if norm(sp_.value.args[0]) == p_ref)
                     okp &= okd
                     detail["default"] = norm(v)
                 else:
